@@ -66,6 +66,11 @@ ElementsFail(m, n, seq, db, e) ==
   ELSE IF Len(e.hairpins) # Cardinality(ExpectedHairpins(m)) THEN "HairpinsOnce"
   ELSE IF \E k \in 1..Len(e.loops) : ~LoopClosed(m, e.loops[k].strands) THEN "LoopsClosed"
   ELSE IF \E x \in UnpairedSet(m, n) : CoverCount(e, x) # 1 THEN "UnpairedCoveredOnce"
+  \* the interior of a single strand is single-stranded: a 5' / 3' flag says that the strand's end is a free,
+  \* unpaired end of the molecule (and only then does the end belong to the interior)
+  ELSE IF \E k \in 1..Len(e.singles) :
+            ~(Interior(e.singles[k].strand.first, e.singles[k].strand.last, e.singles[k].is5p, e.singles[k].is3p)
+              \subseteq UnpairedSet(m, n)) THEN "SingleInteriorsUnpaired"
   ELSE "ok"
 
 \* the behaviour of the one understood defect: a structure without any pair yields no element
